@@ -195,6 +195,6 @@ pub fn def() -> PropertyDef {
                non-zero starts, reorderings with positive and negative composition offsets; stts/ctts/mdhd read back and compared with exact \
                integer tick arithmetic; non-trivial = >=3 samples with >=2 distinct deltas, or a 1001-rate, or reordering",
         assumptions: &["half-tick ties (exact product within 2 ulp of .5) are accepted either way and counted as unconstrained"],
-        subs: vec![Box::new(PSub { name: "timing", quick: 5000, thorough: 150_000, strat, eval })],
+        subs: vec![Box::new(PSub { name: "timing", quick: 30000, thorough: 800000, strat, eval })],
     }
 }
